@@ -12,7 +12,7 @@ package yubiagent
 //vsym:model github.com/theparanoids/ysshra/attestation/yubiattest.ParseCertificate m13cParseCertificate
 //vsym:replay none
 //vsym:expect-cover C13.history.compared C13.history.failure-then-success
-//vsym:bound H13_history: two requests out of ListSlots, ReadSlot, AttestSlot (slot names of 1 symbolic byte) framed back to back on ONE connection served by one call of the real ServeAgent over a scripted YubiAgent whose k-th call succeeds (certificate of 2 symbolic bytes, slot list of 0..1 symbolic names) or fails (1-byte symbolic error text) independently; the reply to each request is compared, field by field, with the reply a fresh ServeAgent gives to that request alone under the same scripted result
+//vsym:bound H13_history: two (thorough three) requests out of ListSlots, ReadSlot, AttestSlot (slot names of 1 symbolic byte) framed back to back on ONE connection served by one call of the real ServeAgent over a scripted YubiAgent whose k-th call succeeds (certificate of 2 symbolic bytes, slot list of 0..1 symbolic names) or fails (1-byte symbolic error text) independently; the reply to each request is compared, field by field, with the reply a fresh ServeAgent gives to that request alone under the same scripted result
 //vsym:assume as H13_compose (ssh.Marshal / pem.EncodeToMemory uninterpreted, replies compared as the message structs handed to ssh.Marshal); writes to the connection succeed
 
 import (
@@ -24,17 +24,17 @@ import (
 type m13hServed struct {
 	m12AgentStub
 	n     int
-	fail  [2]bool
-	text  [2]string
-	cert  [2][]byte
-	slots [2][]string
+	fail  [3]bool
+	text  [3]string
+	cert  [3][]byte
+	slots [3][]string
 	args  []string
 }
 
 func (a *m13hServed) next() int {
 	k := a.n
-	if k > 1 {
-		k = 1
+	if k > 2 {
+		k = 2
 	}
 	a.n++
 	return k
@@ -111,12 +111,15 @@ func m13hSame(x, y interface{}) {
 
 func H13_history() {
 	codes := []byte{AgentMessageListSlots, AgentMessageReadSlot, AgentMessageAttestSlot}
-	var code [2]byte
-	var slot [2]string
+	var code [3]byte
+	var slot [3]string
 	sv := &m13hServed{}
-	code[0] = codes[vChoose(3, "first-request")]
-	code[1] = codes[vChoose(3, "second-request")]
-	for k := 0; k < 2; k++ {
+	nreq := 2
+	if vThorough() {
+		nreq = 3
+	}
+	for k := 0; k < nreq; k++ {
+		code[k] = codes[vChoose(3, "request")]
 		slot[k] = vNondetString("slot", 1)
 		sv.fail[k] = vChoose(2, "served-agent-fails") == 1
 		sv.text[k] = vNondetString("error-text", 1)
@@ -128,20 +131,23 @@ func H13_history() {
 	}
 	// both requests on one connection
 	base := len(m13cTable)
-	both := &m13cServerSide{in: append(m13hFrame(code[0], slot[0]), m13hFrame(code[1], slot[1])...)}
+	both := &m13cServerSide{}
+	for k := 0; k < nreq; k++ {
+		both.in = append(both.in, m13hFrame(code[k], slot[k])...)
+	}
 	err := ServeAgent(sv, both)
 	vAssert(err == nil, "C13.clean-end-of-stream-is-not-an-error")
-	vAssert(len(m13cTable) == base+2 && sv.n == 2, "C13.request-reaches-the-served-agent-once")
-	if len(m13cTable) != base+2 {
+	vAssert(len(m13cTable) == base+nreq && sv.n == nreq, "C13.request-reaches-the-served-agent-once")
+	if len(m13cTable) != base+nreq {
 		return
 	}
-	for k := 0; k < 2; k++ {
+	for k := 0; k < nreq; k++ {
 		if code[k] != AgentMessageListSlots && k < len(sv.args) {
 			vAssert(vEqString(sv.args[k], slot[k]), "C13.served-agent-receives-the-callers-slot")
 		}
 	}
 	// each request alone on a fresh connection, same scripted result
-	for k := 0; k < 2; k++ {
+	for k := 0; k < nreq; k++ {
 		one := &m13hServed{}
 		one.fail[0], one.text[0], one.cert[0], one.slots[0] = sv.fail[k], sv.text[k], sv.cert[k], sv.slots[k]
 		at := len(m13cTable)
